@@ -1,5 +1,6 @@
 import QipVerif.Lemmas.SimKetLib
 import QipVerif.Lemmas.SimKetTrace
+import QipVerif.Lemmas.SimKetHist
 /-!
 # C01 — gate-level evolution equals the ordered product of the gates' matrices
 
@@ -410,6 +411,37 @@ theorem trajectory_oper_eq_den (N : ℕ) (ops : List (Op ℂ)) (hw : ∀ op ∈ 
   rw [h1] at g1
   cases g1
   exact g3
+
+/-! ## Histories on live gate objects (`gate.targets = …`, `gate.controls = …` between evaluations) -/
+
+/-- **`run_reads_current_fields`.** `targets` and `controls` of a gate object are plain public attributes.
+For every evaluation route `ev` of the model (a function of the objects' fields — the model has no memo of
+`get_all_qubits` and no cached matrices), every circuit of gate objects and every history of re-assignments
+of targets / controls and of earlier evaluations: the answer of an evaluation is the answer for freshly
+built objects carrying the **current** fields.  (The contract checked on the code by the re-targeting
+histories; C08 states the same for `get_qobj` as `history_get_current`, C02 as `stat_eq_branches_current`.) -/
+theorem run_reads_current_fields {A β : Type} (ev : List (GateReq A) → β) (gs : List (GateReq A)) (ops : List HistOp) :
+    runHist ev gs (ops ++ [.eval]) = runHist ev gs ops ++ [ev (ops.foldl applyHist gs)] :=
+  runHist_eval_last ev gs ops
+-- non-vacuity: CNOT(0→1), RY(1); evaluated, RY moved to qubit 2, CNOT re-targeted to 2→0, evaluated again
+example : runHist (fun gs => gs.map GateReq.allQubits)
+      [(⟨"CNOT", [1], [0], false, ()⟩ : GateReq Unit), ⟨"RY", [1], [], true, ()⟩]
+      [.eval, .setTargets 1 [2], .setControls 0 (some [2]), .setTargets 0 [0], .eval]
+    = [[[0, 1], [1]], [[2, 0], [2]]] := by decide
+
+/-- **`retargeted_run_eq_den`.** After any history on the gate objects, if the objects as they are **now**
+resolve to well-placed steps, the state-vector evaluation returns the ordered product of the gates'
+matrices embedded on the qubits the gates name now, applied to the input. -/
+theorem retargeted_run_eq_den {A : Type} (N : ℕ) (lib : Library A ℂ) (ug : List (UserGate A ℂ))
+    (gs : List (GateReq A)) (hist : List HistOp) (ops : List (Op ℂ)) (amps : List ℂ)
+    (h : resolveAll lib ug (hist.foldl applyHist gs) = .ok ops) (hw : ∀ op ∈ ops, WFOp N op) :
+    ∃ T', (runHist (fun g => (resolveAll lib ug g).bind fun o => runKet opsC o (ketTensor N amps)) gs
+              (hist ++ [.eval])).getLast? = some (.ok T') ∧
+      ketOf N T' = (denP (ops.map (toPGate N))).mulVec (ketOf N (ketTensor N amps)) := by
+  obtain ⟨T', g1, _, g3⟩ := ket_run N ops hw amps
+  refine ⟨T', ?_, g3⟩
+  rw [run_reads_current_fields, List.getLast?_append, List.getLast?_singleton, h]
+  simp [Except.bind, g1]
 
 /-! ## Circuits of library gates, against the shared specification object `denG` -/
 
